@@ -1,4 +1,5 @@
 import TD.C09.LemmasTop
+import TD.C09.LemmasEnd
 
 /-!
 # C09 — LAS files parse to their content, independent of layout
@@ -155,6 +156,40 @@ theorem mask_exact (c : LasContent) (l : LasLayout) (hwf : wfContent c = true) :
   | num m e => simp [Function.comp, hp, expectCell, cellKey]
   | bad s => simp [Function.comp, hp, expectCell, cellKey, numEq_self]
   | lit s m e => simp [Function.comp, hp, expectCell, cellKey]
+
+/-- **the last line needs no line feed**: a text whose last line `l` (non-empty) is not newline-terminated is read
+exactly like the same text with the terminating line feed — last data row, last continuation line of a wrapped frame,
+last header line alike (`generate_lines` stops on the EMPTY string only). -/
+theorem parse_no_final_newline (t l : Str) (hl : l ≠ []) (hn : ∀ c ∈ l, c ≠ '\n') :
+    parse (t ++ '\n' :: l) = parse (t ++ '\n' :: (l ++ ['\n'])) := by
+  have h1 : splitLines (t ++ '\n' :: l) = splitLinesAux (t ++ ['\n']) [] ++ [l] := by
+    unfold splitLines
+    rw [splitLinesAux_split, splitLinesAux_last l [] hn (Or.inl hl)]; simp
+  have h2 : splitLines (t ++ '\n' :: (l ++ ['\n'])) = splitLinesAux (t ++ ['\n']) [] ++ [l ++ ['\n']] := by
+    unfold splitLines
+    rw [splitLinesAux_split]
+    have := splitLinesAux_line l [] [] hn
+    simp only [List.reverse_nil, List.nil_append] at this
+    rw [this]; simp [splitLinesAux]
+  unfold parse genLines
+  rw [h1, h2, List.filter_append, List.filter_append, run_append, run_append]
+  cases run St.init (List.filter keepLine (splitLinesAux (t ++ ['\n']) [])) with
+  | error e => rfl
+  | ok st =>
+    simp only [List.filter_cons, List.filter_nil, keepLine_final_lf l hl hn]
+    cases keepLine l with
+    | false => rfl
+    | true => simp only [if_true, run, step_final_lf st l hl]
+
+/-- the printed content without its final line feed is still read as the content -/
+theorem parse_print_no_final_newline (c : LasContent) (ly : LasLayout) (hwf : wfContent c = true) (t l : Str)
+    (hp : print c ly = t ++ '\n' :: (l ++ ['\n'])) (hl : l ≠ []) (hn : ∀ x ∈ l, x ≠ '\n') :
+    parse (t ++ '\n' :: l) = .ok (toFile c) := by
+  rw [parse_no_final_newline t l hl hn, ← hp]; exact parse_print c ly hwf
+
+example : (match parse "~V\nVERS. 2.0:\nWRAP. NO:\n~C\nDEPT.M:\nGR.API:\n~A\n1.0 5\n2.0 7".toList with
+    | .ok f => f.array.map (fun a => a.frames.length) == some 2
+    | .error _ => false) = true := by decide +kernel
 
 /-- `_convert_value`: a token outside the numeric grammar becomes null, a printed number is read back exactly -/
 theorem convert_value_spec (tok : Str) :
